@@ -21,7 +21,9 @@ RULE = ("per scenario {first call; second function with identical bytes already 
         "then faulted in a pristine child in every applicable variant: crash-before, crash-mid-write (file left "
         "with a prefix of its final content: empty, each path-separator boundary of a link / a third / half / "
         "all-but-one byte; thorough: every byte of every link), error on the operation (ENOSPC/EFBIG), error on "
-        "write after n bytes; afterwards three fresh processes call the function and a second function producing "
+        "write after n bytes, and a kernel-level file size limit (RLIMIT_FSIZE with SIGXFSZ ignored: the write(2) "
+        "crossing the limit is cut short, the next one fails with EFBIG) at every size class of the files the "
+        "scenario writes; afterwards three fresh processes call the function and a second function producing "
         "byte-identical results; non-trivial = distinct (scenario, operation, variant, prefix) fault points at "
         "which the fault was observed to fire")
 ASSUMPTIONS = ["a crash is os._exit at the failpoint (no Python-level cleanup runs); durability of completed writes "
@@ -29,10 +31,11 @@ ASSUMPTIONS = ["a crash is os._exit at the failpoint (no Python-level cleanup ru
                "bounded recovery: the first call after faults stop may recompute, the third must be served"]
 TIMEOUT = 1800
 WORKERS = {"quick": 16, "thorough": 16}
-SCENARIOS_QUICK = ["first", "same_bytes", "override", "exception"]
+SCENARIOS_QUICK = ["first", "same_bytes", "override", "exception", "big"]
 SCENARIOS_ALL = ["first", "same_bytes", "after_forget", "override", "none_override", "partition", "metadata_path",
-                 "memory_cache", "exception"]
-VARIANTS = ["crash-before", "crash-mid", "error", "error-write"]
+                 "memory_cache", "exception", "big", "big_same_bytes"]
+VARIANTS = ["crash-before", "crash-mid", "error", "error-write", "fsize"]
+BIG = 300 * 1024
 
 
 def cases(tier, seed):
@@ -55,6 +58,8 @@ def table(scenario):
         return lambda: InMemoryPartition({"a": 1, "b": "x" * 30, "c": [1, 2]})
     if scenario == "exception":
         return ("__raise__", ValueError, ("scenario failure",))
+    if scenario.startswith("big"):
+        return "big-" + "y" * BIG
     return "result-string-" + "y" * 30
 
 
@@ -69,6 +74,8 @@ def expected(scenario):
         return ("ret", InMemoryPartition({"a": 1, "b": "x" * 30, "c": [1, 2]}))
     if scenario == "exception":
         return ("raise", "ValueError")
+    if scenario.startswith("big"):
+        return ("ret", "big-" + "y" * BIG)
     return ("ret", "result-string-" + "y" * 30)
 
 
@@ -123,7 +130,7 @@ def faulted_child(arg):
     det_uuid()
     f = faults.Faults(root)
     install(root, scenario)
-    if scenario == "same_bytes":
+    if scenario in ("same_bytes", "big_same_bytes"):
         ffuncs.produce2("s")
     elif scenario == "after_forget":
         ffuncs.produce("s")
@@ -133,10 +140,28 @@ def faulted_child(arg):
 
         ffuncs.TABLE["setup|1"] = lambda: KeyOverrideResult("earlier-value", "ovr/key1")
         ffuncs.pair("setup", 1)  # a third function owns the value that the override key had before
-    f.armed = arg.get("fault")
-    f.active = True
-    first = outcome(ffuncs.produce, scenario)
-    f.active = False
+    fault = arg.get("fault")
+    if fault is not None and fault["variant"] == "fsize":
+        # kernel-level fault: no file may grow beyond `limit` bytes while the memoizing call runs; a write
+        # crossing the limit is cut short by the kernel and the next one fails with EFBIG
+        import resource
+        import signal
+
+        signal.signal(signal.SIGXFSZ, signal.SIG_IGN)
+        soft, hard = resource.getrlimit(resource.RLIMIT_FSIZE)
+        resource.setrlimit(resource.RLIMIT_FSIZE, (fault["limit"], hard))
+        f.active = True
+        try:
+            first = outcome(ffuncs.produce, scenario)
+        finally:
+            resource.setrlimit(resource.RLIMIT_FSIZE, (soft, hard))
+        f.active = False
+        f.fired = True
+    else:
+        f.armed = fault
+        f.active = True
+        first = outcome(ffuncs.produce, scenario)
+        f.active = False
     res = {"ops": f.log, "fired": f.fired, "first": first}
     if arg.get("snapshot"):
         final = {}
@@ -176,6 +201,18 @@ def prefixes(rel, content, tier):
 
 def fault_points(ops, final, variant, tier, rng):
     pts = []
+    if variant == "fsize":
+        sizes = sorted({len(v) // 2 for v in final.values()})  # hex -> bytes
+        limits = {0}
+        for n in sizes:
+            limits |= {n - 1, n // 2, n // 3} if n > 0 else set()
+        limits = sorted(l for l in limits if 0 <= l < max(sizes + [1]))
+        if tier == "quick" and len(limits) > 10:
+            limits = limits[:4] + limits[-6:]
+        for l in limits:
+            hit = sorted({faults.role_of(rel) for rel, v in final.items() if len(v) // 2 > l})
+            pts.append({"index": None, "variant": variant, "limit": l, "cut": l, "hit": hit})
+        return pts
     for idx, kind, rel, _src in ops:
         if variant == "crash-before":
             pts.append({"index": idx, "variant": variant})
@@ -212,15 +249,22 @@ def run_case(case):
         pts = fault_points(ops, prof["final"], variant, tier, rng)
         for n, fp in enumerate(pts):
             idx = fp["index"]
-            _, kind, rel, _src = ops[idx]
             root = sc.path("f%d" % n)
             arm = dict(fp)
             if "prefix" in arm:
                 arm["prefix"] = bytes.fromhex(arm["prefix"])
-            label = "scenario %s, operation %d/%d (%s %s: %s), %s%s" % (
-                scenario, idx, len(ops), kind, faults.role_of(rel), rel, variant,
-                " after %d bytes" % fp["cut"] if "cut" in fp else "")
-            sigbase = "(%s of the %s, %s)" % (kind, faults.role_of(rel), variant)
+            if variant == "fsize":
+                label = "scenario %s, file size limit %d bytes while memoizing (cuts short: %s)" % (
+                    scenario, fp["limit"], ", ".join(fp["hit"]))
+                sigbase = "(write cut short by a file size limit, kernel EFBIG; largest file affected: %s)" % (
+                    "data object" if "data object" in fp["hit"] else (fp["hit"] or ["none"])[0])
+                out["obs"]["kernel_level_size_limits_injected"] += 1
+            else:
+                _, kind, rel, _src = ops[idx]
+                label = "scenario %s, operation %d/%d (%s %s: %s), %s%s" % (
+                    scenario, idx, len(ops), kind, faults.role_of(rel), rel, variant,
+                    " after %d bytes" % fp["cut"] if "cut" in fp else "")
+                sigbase = "(%s of the %s, %s)" % (kind, faults.role_of(rel), variant)
             rep = run_forked(faulted_child, {"root": root, "scenario": scenario, "fault": arm}, 120)
             crashed = False
             if "res" in rep:
@@ -244,7 +288,7 @@ def run_case(case):
                 crashed = True
                 out["obs"]["faults_fired"] += 1
                 out["obs"]["crashes_injected"] += 1
-            out["nontrivial"].append("%s|%d|%s|%s" % (scenario, idx, variant, fp.get("cut")))
+            out["nontrivial"].append("%s|%s|%s|%s" % (scenario, idx, variant, fp.get("cut")))
             # recovery, observed in fresh processes on the damaged store
             runs = []
             for k in range(3):
@@ -278,5 +322,5 @@ def run_case(case):
 
 def conclude(agg):
     return core.first(core.need(agg, "faults_fired", 100), core.need(agg, "recoveries_observed", 100),
-                      core.need(agg, "crashes_injected", 40), core.need(agg, "same_process_calls_judged", 100)), {
+                      core.need(agg, "crashes_injected", 40), core.need(agg, "kernel_level_size_limits_injected", 15), core.need(agg, "same_process_calls_judged", 100)), {
         "exhaustive": True, "fault_points": agg.obs.get("fault_points", 0)}
